@@ -18,6 +18,7 @@ Proved here, for every field `K`:
 * `cg_exact_precond`           with an exact preconditioner (`A·(P v) = v`) CG makes exactly one pass (`α = 1`) and
                                returns the exact solution (`f − A x = 0`, reported residual `0`);
 * `richardson_exact_precond`   the same for Richardson with `damping = 1`;
+* `bicgstab_exact_precond_right` the same for right-preconditioned BiCGStab (exit after the half step, `s = 0`);
 * `preonly_spec`               preonly returns `P f`.
 
 NOT proved (kept as doc-comments; decided only by exact agreement of every iterate with the model and by the
@@ -27,8 +28,8 @@ exact certificates evaluated by the harness on explored inputs):
   `x₀ + K_k(PA, P r₀)`, i.e. `r_k ⟂ K_k` and `x_k − x₀ ∈ K_k` (the harness checks exactly these two conditions in
   rational arithmetic for every CG case on an SPD pair: tag `cg_optimality_cert`), `cg_conjugacy`, termination
   within `n` passes;
-* `bicgstab_exact_precond` — one pass with `α = 1`, exit after the half step (checked by the harness oracle for
-  both sides, tag `exact_prec`; not stated as a theorem);
+* `bicgstab_exact_precond` for LEFT preconditioning (needs `P·(A v) = v` as well; checked by the harness oracle,
+  tag `exact_prec`; the right-preconditioned case is `bicgstab_exact_precond_right` below);
 * GMRES / FGMRES / LGMRES / IDR(s) / BiCGStab(L): second work package.
 -/
 namespace Amgcl.C05
@@ -116,6 +117,27 @@ theorem richardson_exact_precond (prm : Richardson.Params K) (ip : Vec K → Vec
     have hit : (Richardson.final prm ip sqrt A P ws f x0 nf).iter = 1 := by rw [hfin]; rfl
     rw [hres, hit, zero_div]
   · rw [← hinv.1, hfin, hr]
+
+/-- **BiCGStab (right preconditioning, no `check_after`) with an exact preconditioner** makes exactly one pass
+(`α = 1`, exit after the half step because `s = 0`), reports residual `0` and returns the exact solution.
+(Left preconditioning needs `P·(A v) = v` in addition; it is checked by the harness oracle, tag `exact_prec`.) -/
+theorem bicgstab_exact_precond_right (prm : BiCGStab.Params K) (hside : prm.pside = .right)
+    (hca : prm.checkAfter = false) (ip : Vec K → Vec K → K) (sqrt : K → K) (eps : K) (A : CRS K)
+    (hA : A.WF) (P : Vec K → Vec K) (hP : ∀ v, (P v).size = A.ncols)
+    (hAP : ∀ v z, v.size = A.nrows → spmv 1 A (P v) 0 z = v)
+    (ws : BiCGStab.Work K) (f x0 : Vec K) (nf : K) (hp : prologue prm.nsSearch ip sqrt eps f = .go nf)
+    (hne : ip (residual f A x0) (residual f A x0) ≠ 0) (hmax : 1 ≤ prm.maxiter)
+    (hstart : BiCGStab.epsTol prm nf < nrm ip sqrt (residual f A x0))
+    (hz : nrm ip sqrt (vclear A.nrows) = 0) (heps : ¬ BiCGStab.epsTol prm nf < 0) :
+    ∃ x w, BiCGStab.solve prm ip sqrt eps A P ws f x0 = .ok (1, 0, x, w) ∧
+      residual f A x = vclear A.nrows := by
+  obtain ⟨st, hfin, h1, h2, h4⟩ :=
+    BiCGStab.exact_final prm hside hca ip sqrt A P hAP ws f x0 nf hne hmax hstart hz heps
+  refine ⟨st.x, st.w, ?_, ?_⟩
+  · rw [BiCGStab.solve, Run.toExcept_ok, BiCGStab.run_go _ _ _ _ _ _ _ _ _ nf hp, hfin]
+    simp only [h1, h2, zero_div]
+  · rw [h4, ← paired_update_inv f A hA 1 (P (residual f A x0)) x0 x0 (by rw [hP]),
+      hAP _ _ (residual_size' f A x0), axpby_cancel, residual_size']
 
 /-- preonly returns `P f` (one preconditioner application, the initial guess is ignored) -/
 theorem preonly_spec (ip : Vec K → Vec K → K) (sqrt : K → K) (eps : K) (A : CRS K) (P : Vec K → Vec K)
